@@ -241,6 +241,10 @@ func makePassword(pw string, algorithm string, iterations, length, saltlen, cost
 
 	switch algorithm {
 	case "pbkdf2":
+		if length <= 0 {
+			return group.Password{},
+				errors.New("key length must be positive")
+		}
 		key := pbkdf2.Key(
 			[]byte(pw), salt, iterations, length, sha256.New,
 		)
